@@ -192,7 +192,7 @@ void h_raw_release(void) {
   VASSERT(h.f5 == 1 && h.f3 == 0, "stored; nothing released yet");
   VASSERT(h.f7 == 1, "replacing the value releases its string node at once (reference count back to zero)");
   VASSERT(h.f0 == 1 && (int32_t)h.f8.e[0] == x, "the new value is in place");
-  VASSERT(h.f4 == 1 && h.f1 == 1, "one block was requested (the node) and it is released exactly once, not again at destruction");
+  VASSERT(h.f4 == 1 && h.f1 == 2, "one block was requested for the value (the node); at the end the node and the slot pool have each been released once");
   VWITNESS("any");
 }
 
